@@ -13,7 +13,7 @@ RULE = ("strings over all 128 ASCII code points, lengths 0..4096 (every length 0
         "random longer ones), each hashed by the library and compared with zlib.crc32 and a bitwise CRC "
         "(partial path hash = JAMCRC of the lower-cased bytes, shader crc = reflected CRC-32 init 0, no xorout) "
         "plus case-insensitivity (hash(s)==hash(swapcase s)); files of every length 0..300 and random lengths to "
-        "4 MiB around the SHA-1 padding boundaries digested through FileInfo::new vs hashlib.sha1. "
+        "4 MiB around the SHA-1 padding boundaries, plus lengths at which the bit count crosses a byte of the 64-bit length field (2^8, 2^16, 2^24 bits; thorough: 2^32 bits = 512 MiB), digested through FileInfo::new vs hashlib.sha1. "
         "non-trivial = string of length >= 1 / file of length >= 1; distinct = digest of the content")
 ASSUMPTIONS = ["Python zlib.crc32 and hashlib.sha1 are correct independent implementations",
                "paths are ASCII (property domain); Unicode lower-casing is not exercised"]
@@ -23,7 +23,7 @@ def plan(tier):
     if tier == "quick":
         return [("debug", 8, dict(nstr=2500, nfiles=40, maxfile=1 << 20))]
     return [("debug", 16, dict(nstr=60000, nfiles=190, maxfile=4 << 20)),
-            ("release", 4, dict(nstr=20000, nfiles=40, maxfile=4 << 20))]
+            ("release", 4, dict(nstr=20000, nfiles=40, maxfile=4 << 20, huge=True))]
 
 
 def bitcrc(data, init):
@@ -100,10 +100,19 @@ def shard(ctx):
     for _ in range(P["nfiles"]):
         base = rng.choice([0, 64, 128, 1 << 10, 1 << 12, 1 << 16, rng.randrange(0, P["maxfile"], 64)])
         lens.append(min(P["maxfile"], base + rng.choice(edges + [rng.randrange(64)])))
+    # lengths whose bit count crosses each byte of the 64-bit length field in the padding (2^8, 2^16, 2^24 bits; every length byte non-zero)
+    bitlen = [31, 32, 33, 8191, 8192, 8193, (1 << 21) - 1, 1 << 21, (1 << 21) + 1, (1 << 21) + 64 * rng.randrange(1, 64) + rng.randrange(64), 0x01234567 // rng.choice([1, 2, 4])]
+    lens += [n for i, n in enumerate(bitlen) if i % ctx.nshards == ctx.index]
+    if P.get("huge") and ctx.index == 0:
+        lens.append((1 << 29) + rng.randrange(1, 200))      # >= 2^32 bits
     paths = []
     datas = []
     for i, n in enumerate(lens):
-        d = rng.randbytes(n) if rng.random() < 0.8 else bytes([rng.randrange(256)]) * n
+        if n > (8 << 20):
+            blk = rng.randbytes(1 << 16)
+            d = (blk * (n // len(blk) + 1))[:n]
+        else:
+            d = rng.randbytes(n) if rng.random() < 0.8 else bytes([rng.randrange(256)]) * n
         paths.append(ctx.write("f/file_%04d.bin" % i, d)); datas.append(d)
     out = ctx.path("out.fiin")
     tot = sum(map(len, datas))
@@ -136,7 +145,7 @@ def shard(ctx):
 
 
 def bucket(n):
-    for b in (0, 1, 8, 64, 300, 1024, 4096, 65536, 1 << 20):
+    for b in (0, 1, 8, 64, 300, 1024, 4096, 65536, 1 << 20, (1 << 21) - 1, (1 << 29) - 1):
         if n <= b:
             return "<=%d" % b
-    return ">1MiB"
+    return ">=512MiB"
